@@ -551,19 +551,19 @@ func (h *hsRunner) scripted() {
 		other := h.cfgs[(ci+1)%len(h.cfgs)]
 		for _, ver := range []string{"v200", "v033"} {
 			for _, role := range []string{"inbound", "outbound"} {
-				for _, hp := range pairs {
+				for pi, hp := range pairs {
 					base := hsCase{Kind: "scripted", Ver: ver, Role: role, Cfg: ci, LocalH: hp[0], RemoteH: hp[1]}
 					if h.skip(base) {
 						continue
 					}
-					h.scriptedScenario(base, cf, other, unhandled)
+					h.scriptedScenario(base, cf, other, unhandled, !h.c.Quick() || pi == 0 || h.only != nil)
 				}
 			}
 		}
 	}
 }
 
-func (h *hsRunner) scriptedScenario(base hsCase, cf, other *chainCfg, unhandled func(string)) {
+func (h *hsRunner) scriptedScenario(base hsCase, cf, other *chainCfg, unhandled func(string), pairwise bool) {
 	L, R := h.endpoints(cf, cf, base.LocalH, base.RemoteH)
 	honest, err := h.captureStatus(R, base.Ver, L.id)
 	if err != nil {
@@ -665,6 +665,51 @@ func (h *hsRunner) scriptedScenario(base hsCase, cf, other *chainCfg, unhandled 
 			}
 		}
 		judge(hc, run(st, R.id), R.id, demand, what)
+	}
+
+	// 3b. a named difference must be refused whatever ELSE the peer changes with it (an unnamed field must not be able
+	// to switch a named check off): representative named change x every unnamed single-field change
+	if pairwise {
+		isNamed := func(f string) bool { return f == "Genesis" || f == "ChainID" || f == "Sender.PeerID" }
+		var reps []mutation
+		for _, m := range muts {
+			switch {
+			case m.Field == "Genesis" && m.Name == "alt:other-chain-genesis", m.Field == "Genesis" && m.Name == "empty",
+				m.Field == "Sender.PeerID" && m.Name == "alt:third-party-id",
+				m.Field == "ChainID" && (m.Name == "magic=testnet.aergo.io" || m.Name == "consensus=" || m.Name == "public-toggled"):
+				reps = append(reps, m)
+			}
+		}
+		for _, rep := range reps {
+			for _, m2 := range muts {
+				if isNamed(m2.Field) || m2.Field == "Sender" {
+					continue
+				}
+				hc := base
+				hc.Field, hc.Mut = rep.Field+"+"+m2.Field, rep.Name+"+"+m2.Name
+				if h.skip(hc) {
+					continue
+				}
+				st := cloneStatus(honest)
+				rep.apply(st)
+				m2.apply(st)
+				demand := ""
+				switch {
+				case !bytes.Equal(st.Genesis, cf.Genesis):
+					demand = "genesis"
+				case string(st.Sender.PeerID) != string(R.id):
+					demand = "peer-identity"
+				default:
+					if d := cidDemand(st.ChainID, cf, st.BestHeight); d != "" && d != "version" {
+						demand = "chainid-" + d
+					}
+				}
+				if demand == "" {
+					continue
+				}
+				judge(hc, run(st, R.id), R.id, demand+"+unnamed", rep.Name+" together with "+m2.Field+" "+m2.Name)
+			}
+		}
 	}
 
 	// 4. not single-field: what a broken or hostile peer may send instead of a status — every prefix of the honest
